@@ -163,9 +163,14 @@ class Cadence(collections.abc.MutableSequence):
         to :func:`~setigen.frame.Frame.add_signal`.
         """
         for frame in self.frames:
-            frame.ts += frame.t_start - self.t_start
-            frame.add_signal(*args, **kwargs)
-            frame.ts -= frame.t_start - self.t_start
+            # Temporarily shift the frame's time axis; restore the original
+            # array exactly, also if the injection raises
+            ts = frame.ts
+            frame.ts = ts + (frame.t_start - self.t_start)
+            try:
+                frame.add_signal(*args, **kwargs)
+            finally:
+                frame.ts = ts
         
     def apply(self, func):
         """
